@@ -4,7 +4,8 @@
 Each mutant is a patch against /repo's HEAD. It is applied to a scratch git
 worktree OUTSIDE /repo and /verif (removed right afterwards), govc is run on
 that tree, and the listed obligation(s) must fail (must-fail) or nothing may
-fail (must-pass).  Usage: run.py [--property Cxx] [--only name] [--jobs N]
+fail (must-pass).  Usage: run.py [--property Cxx] [--only name] [--jobs N] [--harmless]
+(--harmless: the edits under selftest/harmless/, each run against every claimed property)
 """
 import json, os, subprocess, sys, tempfile, glob, shutil, concurrent.futures, argparse
 
@@ -28,9 +29,20 @@ def run_one(meta_path):
         if b.returncode != 0:
             return name, False, "mutant does not compile: " + b.stderr[:300]
         env = dict(os.environ, VERIF_REPO=wt, VERIF_OUT=out, GOVC_NO_REPLAY="" if meta.get("replay") else "1")
-        r = subprocess.run([os.path.join(VERIF, "bin", "govc"), "check", "--property", meta["property"], "--tier", "quick"],
-                           capture_output=True, text=True, env=env)
-        viol = [l for l in r.stdout.splitlines() if l.startswith("VIOLATION")]
+        if meta["property"] == "ALL":
+            # behaviour-preserving edit: every claimed property must stay quiet
+            claimed = [c["property_id"] for c in json.load(open(os.path.join(VERIF, "MANIFEST.json")))["checks"]]
+            viol, rc = [], 0
+            for pid in claimed:
+                r = subprocess.run([os.path.join(VERIF, "bin", "govc"), "check", "--property", pid, "--tier", "quick"],
+                                   capture_output=True, text=True, env=env)
+                viol += [l for l in r.stdout.splitlines() if l.startswith("VIOLATION")]
+                rc = rc or r.returncode
+            r = subprocess.CompletedProcess([], rc)
+        else:
+            r = subprocess.run([os.path.join(VERIF, "bin", "govc"), "check", "--property", meta["property"], "--tier", "quick"],
+                               capture_output=True, text=True, env=env)
+            viol = [l for l in r.stdout.splitlines() if l.startswith("VIOLATION")]
         if meta.get("kind", "must-fail") == "must-pass":
             ok = r.returncode == 0 and not viol
             return name, ok, "clean" if ok else "unexpected: " + "; ".join(viol)[:400]
@@ -48,8 +60,9 @@ def main():
     ap.add_argument("--property")
     ap.add_argument("--only")
     ap.add_argument("--jobs", type=int, default=4)
+    ap.add_argument("--harmless", action="store_true", help="run the behaviour-preserving edits of selftest/harmless/ against every claimed property")
     a = ap.parse_args()
-    metas = sorted(glob.glob(os.path.join(VERIF, "selftest", "mutants", "*.json")))
+    metas = sorted(glob.glob(os.path.join(VERIF, "selftest", "harmless" if a.harmless else "mutants", "*.json")))
     sel = []
     for m in metas:
         meta = json.load(open(m))
